@@ -254,6 +254,10 @@ class NP:
       return [(p, sc)]
     owner = st.owner if is_view else FRESH
     v = cx.new(term, out_dims, st.kind, owner, base=(base.loc, st.version) if is_view else None, vf=st.vf)
+    arrs = [x for x in pattern if x[0] == 'arr']
+    if len(arrs) == 1 and arrs[0][2] == 0 and all(x[0] in ('arr', 'all') for x in pattern):
+      # ghost provenance: result = base[idx]  (used by the call-structure refinement clauses of C08)
+      p.store[v.loc] = p.store[v.loc].replace(tag=('gather', base.loc, arrs[0][1].loc))
     return [(p, v)]
 
   def slice_len(self, cx, sl, d):
